@@ -40,6 +40,7 @@ struct PmOpt {
 
 inline int g_p = 2;          // characteristic of the model
 inline bool g_log_matrices = false;
+inline bool g_log_reps = false;      // VF_LOGREPS: also log the representative cycles (free-running histories of C08)
 
 struct IdSeq {  // ids = 0,1,2,... (as if inserted without explicit ids)
   static unsigned id(unsigned k) { return k; }
@@ -477,6 +478,21 @@ struct PmModel {
           }
         }
         if (all.size() != nbars) failed.push_back("number of representative cycles differs from the number of bars");
+      }
+    }
+    if constexpr (Opt::can_retrieve_representative_cycles && Opt::has_column_pairings) {
+      // free-running histories: the returned supports are logged for Trace_PersistenceMatrix.tla (RepsOK), except where a
+      // listed finding already says they are wrong (RU over Z2: column of U; heap columns: raw entries)
+      if (g_log_matrices && g_log_reps && !(is_ru && Opt::is_z2) && Opt::column_type != Column_types::HEAP) {
+        m->update_representative_cycles();
+        auto topos = [&](unsigned r) { return is_chain ? pos_of_row(r) : static_cast<int>(r); };
+        bj::array reps;
+        for (auto& b : m->get_current_barcode()) {
+          bj::array cyc;
+          for (auto r : m->get_representative_cycle(b)) cyc.push_back(topos(r));
+          reps.push_back(bj::object{{"dim", b.dim}, {"birth", static_cast<std::int64_t>(b.birth)}, {"cyc", cyc}});
+        }
+        o["reps"] = reps;
       }
     }
     if (g_log_matrices) {
